@@ -5,6 +5,7 @@ CONSTANTS
   FixLeave = TRUE
   FixWrap = TRUE
   FixDead = TRUE
+  FixAdopt = TRUE
   MaxTry = 2
   TrackCov = FALSE
   Goal = "none"
